@@ -25,6 +25,7 @@
   theorems concerned are named `_partial` and carry the excluding hypothesis explicitly.
 -/
 import Lungo.Proofs.SpecAgreeRec
+import Lungo.Proofs.MatchTotal
 import Lungo.Props.C10
 namespace Lungo.C10
 open Lungo Lungo.Spec
@@ -241,6 +242,23 @@ theorem match_agrees_core_partial (sch : SchemaEval) (d q : Doc) (h : coreProved
         · simp [h1, h2, h3] at h
       · simp [h1, h2] at h
     · simp [h1] at h
+
+/-- TOTALITY: on a well-formed filter (§8.2(5): `parseFilter q = some f`) matching returns a truth
+    value, not an error — for EVERY document (no domain restriction), provided the `$jsonSchema`
+    evaluator itself never fails (`SchTotal`; errors of the evaluator are passed through by design). -/
+theorem match_total_on_wellformed (sch : SchemaEval) (hs : SchTotal sch) (d q : Doc) (f : Filter)
+    (hp : parseFilter q = some f) : ∃ b, Match sch d q = .ok b := by
+  unfold parseFilter at hp
+  simp only [Option.map_eq_some_iff] at hp
+  obtain ⟨es, hes, _⟩ := hp
+  obtain ⟨b, hb⟩ := entries_tv sch hs q d es hes
+  refine ⟨b, ?_⟩
+  unfold Match
+  rw [hb]
+  cases b <;> rfl
+
+/-- non-vacuity of `SchTotal`: the evaluator that accepts everything -/
+example : SchTotal (fun _ _ => .ok ()) := fun _ _ => ⟨true, rfl⟩
 
 /-! ### non-vacuity
 
